@@ -102,7 +102,7 @@ CHECKS = {
               "specs/Locate.tla: defining equations of mkdofpv/expanddof (2-D id/component requests, 1-D ids, strict/non-strict, "
               "DataFrame and ndarray tables) and find_duplicates, flippv, index2bool, index2slice, find_subseq, find_vals, "
               "mat_intersect (vectors and matrices, keep 0/1/2), list_intersect, merge_lists for EVERY query over sequences up to "
-              "length 3 over 0..2 (thorough: 4 over 0..3); 8.9k queries replayed, admissible sets where the code may choose."),
+              "length 3 over 0..2 (thorough: 4 over 0..2, 54k queries); 8.9k queries replayed, admissible sets where the code may choose."),
         ref="4/C18",
         note=("Trusted: TLC and the two specs' definitions (independent set-theoretic definitions, not the code's searchsorted/bit tricks). "
               "User sets u1..u6 and float tolerances of find_duplicates/find_unique are not covered. A genuine defect found here was "
